@@ -180,6 +180,12 @@ def norm(tree, ord=2):
     """
     from jax.numpy.linalg import norm
 
+    if ord == 0:
+        # The number of non-zero entries adds up over the leaves (the norm of
+        # the leaf-wise counts would count non-empty leaves instead)
+        counts = [jnp.sum(jnp.asarray(x) != 0) for x in tree_leaves(tree)]
+        return jnp.sum(jnp.array(counts)).astype(float)
+
     def el_norm(x):
         if jnp.ndim(x) == 0:
             return jnp.abs(x)
